@@ -10,8 +10,8 @@ CONSTANTS
   TrimLevels <- MCLevels1
   MaxRefine <- MCRefine0
   GoMutant = "child-map"
+INVARIANT RefVolume
 INVARIANT ChildrenTile
 INVARIANT TrimSplits
 INVARIANT RegionInside
-INVARIANT RefVolume
 CHECK_DEADLOCK FALSE
